@@ -540,6 +540,7 @@ pub fn run(run: &mut Run) {
         let f = smx((0..n).map(|i| obj(i % 3, i % 2)).collect(), 1);
         large.push(FileCase { fmt: Format::Smx, bytes: write_smx(&f), canonical: true, cut_inside: false, label: format!("large: smx with {n} objects") });
     }
+    let large_on_disk = large.clone();
     run.list(&LargeFiles, "collection-sizes-around-integer-widths", large);
     // hostile counts
     let hostile = (file_strategy(), any::<prop::sample::Index>(), 0usize..6).prop_filter_map("canonical", |(f, ix, which)| {
@@ -588,4 +589,6 @@ pub fn run(run: &mut Run) {
     let n = run.budget(2_000, 100_000);
     run.prop(&OnDisk, prop_oneof![3 => file_strategy(), 1 => (file_strategy(), any::<prop::sample::Index>()).prop_map(|(mut f, ix)| { let cut = ix.index(f.bytes.len() + 1); f.bytes.truncate(cut); f.canonical = false; f })], n);
     run.list(&OnDisk, "from-file-agrees-with-in-memory-read", shipped);
+    // the large files too: whatever buffering the file API puts between the file and the parser sees several buffer lengths
+    run.list(&OnDisk, "from-file-agrees-with-in-memory-read", large_on_disk);
 }
